@@ -34,7 +34,7 @@ Proof. vm_compute. reflexivity. Qed.
 
 Lemma parser_settings_writers : settings_writers_ok parser_class parser_setters parser_writers = true.
 Proof. vm_compute. reflexivity. Qed.
-Lemma parser_reinit_covers_runstate : runstate_reset_ok parser_class parser_reinit_name [] parser_writers = true.
+Lemma parser_reinit_covers_runstate : runstate_reset_ok parser_class parser_reinit_name [] parser_writers_via_static = true.
 Proof. vm_compute. reflexivity. Qed.
 Lemma conv_w2x_settings_writers : settings_writers_ok conv_w2x_class conv_w2x_setters conv_w2x_writers = true.
 Proof. vm_compute. reflexivity. Qed.
@@ -43,7 +43,7 @@ Proof. vm_compute. reflexivity. Qed.
 Lemma encoder_settings_writers : settings_writers_ok encoder_class encoder_setters encoder_writers = true.
 Proof. vm_compute. reflexivity. Qed.
 Lemma encoder_reset_covers_runstate :
-  runstate_reset_ok encoder_class encoder_reset_name encoder_known_unreset encoder_writers = true.
+  runstate_reset_ok encoder_class encoder_reset_name encoder_known_unreset encoder_writers_via_static = true.
 Proof. vm_compute. reflexivity. Qed.
 
 (* ====================================================================== *)
